@@ -21,7 +21,9 @@ DOScen ==
       d |-> <<>>, agg |-> <<>>, bb2 |-> 0,
       \* per-function layout: the trunk batch size of the data set is changed after the first epoch (the data set recomputes
       \* its batch counts "for the case when the batch size changed") to another size within the data
-      tb2 |-> IF tb = -1 THEN 1 ELSE (tb % nt) + 1] :
+      tb2 |-> IF tb = -1 THEN 1 ELSE (tb % nt) + 1,
+      \* ... and after the second epoch the BRANCH batch size, too (third epoch)
+      bb3 |-> IF bb = -1 THEN 1 ELSE (bb % nb) + 1] :
         k \in {"shared", "unique"}, nb \in 1..MaxN, nt \in 1..MaxN, bb \in BSizes, tb \in BSizes,
         f \in {g \in BOOLEAN \X BOOLEAN : TRUE}}
 Scen == PointsScen \cup {s \in DOScen : FlagOK(s.Nb + 3 * s.Nt + 5 * s.bb + 7 * s.tb, s.shufB, s.shufT)}
